@@ -725,6 +725,14 @@ class MiniInterp:
             return isinstance(a, ISet) and isinstance(b, ISet) and len(a.xs) == len(b.xs) and all(self.contains(b, x) for x in a.xs)
         if isinstance(a, (list, tuple)) and isinstance(b, (list, tuple)) and type(a) is type(b):
             return len(a) == len(b) and all(self.equal(x, y) for x, y in zip(a, b))
+        if type(a) is dict and type(b) is dict and not (self.plain(a) and self.plain(b)):
+            if len(a) != len(b):
+                return False
+            for k, v in a.items():
+                hit = [k2 for k2 in b if self.equal(k, k2)]
+                if not hit or not self.equal(v, b[hit[0]]):
+                    return False
+            return True
         try:
             return bool(a == b)
         except Exception:
@@ -1202,6 +1210,19 @@ class MiniInterp:
                                                   or isinstance(a, (ISet, PygT)) or isinstance(b, (ISet, PygT))):
             r = self.equal(a, b)
             return r if isinstance(op, ast.Eq) else not r
+        if type(a) in (list, tuple, dict) and type(b) is type(a) and not (self.plain(a) and self.plain(b)):
+            # containers of objects: Python compares them element by element with the elements' own comparison methods
+            if isinstance(op, (ast.Eq, ast.NotEq)):
+                r = self.equal(a, b)
+                return r if isinstance(op, ast.Eq) else not r
+            if type(a) is dict:
+                raise PyRaise("TypeError")
+            for x, y in zip(a, b):
+                if not self.compare(ast.Eq(), x, y):
+                    if isinstance(op, (ast.Lt, ast.LtE)):
+                        return self.compare(ast.Lt(), x, y)
+                    return self.compare(ast.Gt(), x, y)
+            return {ast.Lt: len(a) < len(b), ast.LtE: len(a) <= len(b), ast.Gt: len(a) > len(b), ast.GtE: len(a) >= len(b)}[type(op)]
         if isinstance(a, (Sym, Lin)) or isinstance(b, (Sym, Lin)):
             if self.hook:
                 r = self.hook(self, "compare", op, (a, b), None, None, None)
@@ -1405,6 +1426,15 @@ class MiniInterp:
             return obj.attrs[attr]
         if isinstance(obj, Closure) and attr == "__name__":
             return getattr(obj.node, "name", "<lambda>")
+        if isinstance(obj, slice):
+            if attr in ("start", "stop", "step"):
+                return getattr(obj, attr)
+            if attr == "indices":
+                def ind(a, k, obj=obj):
+                    if len(a) != 1 or not isinstance(a[0], int):
+                        raise Unknown("slice.indices of a non-integer")
+                    return obj.indices(int(a[0]))
+                return PyFn("slice.indices", ind)
         t = type(obj)
         if self.hook and t not in SAFE_METHODS:
             r = self.hook(self, "getattr", obj, attr, None, node, fi)
@@ -1463,6 +1493,12 @@ class MiniInterp:
                     cache[key] = self.ev(mm.assigns[tgt[2]], {}, f0)
                 return cache[key]
             if isinstance(tgt, tuple) and tgt[0] == "external":
+                if ":" in tgt[1] or "." in tgt[1]:
+                    # `from math import inf`, `from os import sep`: a constant of a library module is the value it names
+                    mod_, _, attr_ = tgt[1].rpartition(":" if ":" in tgt[1] else ".")
+                    v = self.getattr(T("external", mod_), attr_, fi, None)
+                    if not isinstance(v, T):
+                        return v
                 return T("external", tgt[1])
         if name in ("True", "False", "None"):
             return {"True": True, "False": False, "None": None}[name]
@@ -2107,7 +2143,7 @@ class MiniInterp:
         """the class of a value as a value of the interpreter"""
         if isinstance(v, (Sym, SymDict, EnumInt)) and getattr(v, "cls", None) is not None:
             return T("class", v.cls)
-        if isinstance(v, PygT):
+        if isinstance(v, PygT) or (isinstance(v, T) and as_pygt(v) is not None):
             return T("external", "pygments.token._TokenType")
         if isinstance(v, bool):
             return T("builtin", "bool")
@@ -2168,6 +2204,10 @@ class MiniInterp:
                 return None
             if name == "type" and len(args) == 1 and not kwargs:
                 return self.type_of(args[0])
+            if name == "slice" and 1 <= len(args) <= 3 and not kwargs:
+                if not all(a is None or (isinstance(a, int) and not isinstance(a, bool)) for a in args):
+                    raise Unknown("slice of non-integer bounds")
+                return slice(*[None if a is None else int(a) for a in args])
             if name == "len":
                 a0 = args[0]
                 if isinstance(a0, T) and a0 and a0[0] == "class":
